@@ -431,9 +431,13 @@ prop('C09', 'other',
      '(INT back end, every finite x), hence sin_range(x + k*2phi) == sin_range(x); sin(x + k*2phi) == sin(x) and '
      'cos(x + k*2phi) == cos(x) exactly for |x|, |x + k*2phi| < 2^46 (INT lemmas over the real functions); sin and cos '
      'results lie in [-1, 1] and every intermediate of the polynomial kernel is overflow-free (CBMC/kissat with '
-     'sin_range replaced by its contract). The accuracy clause |sin(x) - sin x| <= 4 ulp + r^9/9! is NOT expressible '
-     'in the contract language (no transcendental functions); it is decided by an exhaustive native enumeration of '
-     'all 823,549 raw x in [-2pi, 2pi] against long double sinl/cosl -- labelled stand-in, not proved.',
+     'sin_range replaced by its contract). The accuracy clause |sin(x) - sin x| <= 4 ulp + r^9/9! mentions the real sine, '
+     'which the contract language cannot express: in every tier it is decided by an exhaustive native enumeration of all '
+     '823,549 raw x in [-2pi, 2pi] against long double sinl/cosl (stand-in, not proved); in the THOROUGH tier the '
+     'arithmetic half of it is additionally proved: on the whole folded domain |x| <= phi/2 the result of sin differs from '
+     'the exact Maclaurin polynomial x - x^3/3! + x^5/5! - x^7/7! (128-bit integer evaluation) by at most 3 ulp (51 '
+     'slices of 4096 arguments, CBMC/kissat, ~7 min), which with the textbook remainder t^9/9! (assumed) and '
+     '|pi - phi| < 0.42 ulp gives the stated bound without a libm oracle.',
      technique='INT back end (SMT-LIB Int) for range reduction and exact periodicity; CBMC contracts + kissat for the polynomial kernel range/UB; exhaustive native stand-in for accuracy',
      assumptions=['glibc sinl/cosl/asinl (long double, ~1e-19) as the accuracy oracle of the stand-in'])
 SIN_RANGE = '_ZN9fixedmath6detail9sin_rangeENS_7fixed_tE'
@@ -448,6 +452,14 @@ U('C09', 'c09.sin_factors', 'lem_c09_sin_factors', 'pre_c01', None, lemma=True, 
 U('C09', 'c09.cos_period', 'lem_c09_cos_period', 'pre_c09_per', None, lemma=True, cxx='lem_c09_cos_period($1,$2)', **INTQ)
 U('C09', 'c09.sin.kernel', SIN, 'pre_valid1', 'post_unit_interval', replace=[K_SIN_RANGE], cxx='fixedmath::sin($1)', backends=MULBE, timeout=900, split=True)
 U('C09', 'c09.cos', COS, 'pre_valid1', 'post_unit_interval', replace=[(SIN, 'pre_valid1', 'post_unit_interval')], cxx='fixedmath::cos($1)', backends=MULBE, timeout=300)
+
+# deductive accuracy of the sin kernel against the exact polynomial, sliced over the folded domain (thorough tier)
+SIN_SLICE = 4096
+for _k, _lo in enumerate(range(-102943, 102944, SIN_SLICE)):
+    _hi = min(_lo + SIN_SLICE, 102944)
+    U('C09', 'c09.sin.poly.slice%02d' % _k, SIN, None, 'post_sin_poly', cxx='fixedmath::sin($1)',
+      requires_extra=['$1.v >= %d && $1.v < %d' % (_lo, _hi)], backends=MULBE, timeout=1800, tier='thorough',
+      note='kernel vs exact Maclaurin polynomial, slice [%d, %d)' % (_lo, _hi))
 
 
 def c09_scan(tier, seed):
